@@ -23,6 +23,6 @@ VNext == UNCHANGED vvars
 
 (* whatever may be stored is named inside the bucket and is a valid report *)
 VecSane == /\ dec # "reject" => (InsideBucket(ObjectPath(req)) /\ ValidReport(Content(req)))
-           /\ dec = "store" => (req.method = "POST" /\ ~TooLarge(req) /\ Verdicts(req) = {"valid"})
-           /\ (req.method # "POST" \/ TooLarge(req) \/ req.kind # "report") => dec = "reject"
+           /\ dec = "store" => (req.method = "POST" /\ ~TooLarge(req) /\ Verdicts(req) = {"valid"} /\ req.layout \notin LooseLayouts)
+           /\ (req.method # "POST" \/ (TooLarge(req) /\ req.layout # "trailing") \/ req.kind # "report") => dec = "reject"
 =============================================================================
